@@ -305,6 +305,8 @@ def tasks(tier):
     shapes = [one, {'kex': (1, 1), 'key': (1,), 'enc': (1,), 'mac': (1,)}, {'kex': (1,), 'key': (1, 1), 'enc': (1,), 'mac': (1,)},
               {'kex': (1,), 'key': (1,), 'enc': (1, 1), 'mac': (1,)}, {'kex': (1,), 'key': (1,), 'enc': (1,), 'mac': (1, 1)},
               {'kex': (2,), 'key': (1,), 'enc': (1,), 'mac': (1,)}, {'kex': (1,), 'key': (1,), 'enc': (1,), 'mac': (2,)}]
+    # an empty name-list on the wire is read as [''] (ReadBuf.read_list): an AEAD-only peer with no MACs, and the other fields likewise
+    shapes += [{'kex': (1,), 'key': (1,), 'enc': (1,), 'mac': (0,)}, {'kex': (1,), 'key': (1,), 'enc': (0,), 'mac': (1,)}, {'kex': (1,), 'key': (0,), 'enc': (1,), 'mac': (0,)}, {'kex': (0,), 'key': (1,), 'enc': (1,), 'mac': (1,)}]
     if not q:
         shapes += [{'kex': (1, 1, 1), 'key': (1,), 'enc': (1,), 'mac': (1,)}, {'kex': (2, 1), 'key': (1, 1), 'enc': (1,), 'mac': (1,)},
                    {'kex': (1,), 'key': (1,), 'enc': (1, 1, 1), 'mac': (1,)}, {'kex': (3,), 'key': (1,), 'enc': (1,), 'mac': (1,)},
